@@ -51,7 +51,7 @@ CLAIMED["C17"] = ("E-SEQ", ESEQ + " with a virtual (paused tokio) clock driving 
 CLAIMED["C18"] = ("E-INT", "stateless exhaustive schedule search (DFS by re-execution, optional preemption bound) over the real connection futures stepped one tokio synchronisation operation at a time; linearizability against sequential runs of the same code", "DESIGN.md §3.2, §4 C18",
     "For 25 bursts of 2-3 connections every interleaving at the granularity of single tokio synchronisation operations (lock acquisitions, socket reads, flushes, the password-check yield) is executed on the real code; each outcome (final state, ordered replies per connection, ordered relays per sender/receiver pair, who is registered/closed) must equal the outcome of some sequential execution; plus representation invariants, deadlock detection and a PING liveness round.", "Single-threaded stepping covers multi-threaded executions up to Lipton reduction (every shared access is inside a tokio lock section, an atomic or an mpsc send); memory-ordering effects not modelled (all atomics SeqCst); bursts are small (<= 3 connections, <= 3 commands each).")
 CLAIMED["C20"] = ("E-FUN", EFUN + " (validity predicate over a configuration lattice); liveness of every documented key; hash/verify pairs; welcome-burst conformance in real worlds", "DESIGN.md §4 C20",
-    "The full product of per-field validity menus x 11 command-line variants (33 792 configurations) through the real Cli/MainConfig::new; every leaf key of config-example.toml shown to be live; 20x20 password pairs through hash/verify; 288 valid configurations on the wire (welcome burst, default modes, max_joins, server password).", "TLS-on versus TLS-off transcript equality is not covered in this round (needs the tls_rustls feature build and loopback sockets); start-up failure is observed as MainConfig::new returning Err, which main() propagates before run_server.")
+    "The full product of per-field validity menus x 11 command-line variants (33 792 configurations) through the real Cli/MainConfig::new; every leaf key of config-example.toml shown to be live; 20x20 password pairs through hash/verify; 288 valid configurations on the wire (welcome burst, default modes, max_joins, server password).", "Quick tier: start-up failure is observed as MainConfig::new returning Err, which main() propagates before run_server. Thorough tier adds the production binary itself (start-up exit codes, -g) and the TLS-on/TLS-off transcript comparison over loopback with a rustls client trusting test_data/cert.crt; these need loopback sockets.")
 PENDING = {}
 
 def main():
@@ -86,6 +86,8 @@ def main():
         "engines": [
             {"name": "E-INT", "path": "/verif/mc/src/dfs.rs", "serves_properties": ["C18"],
              "kind_free_text": "stateless schedule enumeration of real connection futures: the tokio cooperative budget is burnt to one unit before each poll so every poll performs at most one synchronisation operation; custom wakers detect lock hand-over; all schedules of a burst are enumerated by re-execution"},
+            {"name": "E-BIND", "path": "/verif/mc/src/bind.rs", "serves_properties": ["C02", "C04", "C20"],
+             "kind_free_text": "thorough tier only: every history up to a small depth of an E-SEQ scenario replayed over loopback TCP (and TLS) against the production binary built from /repo WITHOUT the verification cfg; canonical transcripts must equal those of the in-memory hooked run"},
             {"name": "E-FUN", "path": "/verif/mc/src/fun.rs", "serves_properties": [p for p in props if p in CLAIMED and "E-FUN" in CLAIMED[p][0]],
              "kind_free_text": "bounded-exhaustive enumeration of finite input spaces (strings over small alphabets, configuration lattices, products of conditions) through the real functions or one-step real server worlds"},
             {"name": "E-SEQ", "path": "/verif/mc/src/bfs.rs", "serves_properties": [p for p in props if p in CLAIMED and CLAIMED[p][0].startswith("E-SEQ")],
